@@ -30,6 +30,20 @@ def to_tx(ct, v):
     return v
 
 
+def _nest_list(depth, inner):
+    v = inner
+    for _ in range(depth - 1):
+        v = [v]
+    return v
+
+
+def _nest_struct(depth, inner):
+    v = inner
+    for _ in range(depth - 1):
+        v = [v]
+    return v
+
+
 def roundtrip_case(sig, vals, off, le):
     """returns failure text or None: encoder bytes == spec bytes; decoder(spec bytes) == value; round trip; counts"""
     from txdbus import marshal
@@ -72,12 +86,16 @@ def bounded_roundtrip(tier, seed):
     pool = signature_pool(tier)
     rnd.shuffle(pool)
     n = 0
-    take = pool[:6000 if tier == 'thorough' else 260]
+    take = pool[:6000 if tier == 'thorough' else 1500]
     # fixed hard cases first: empty containers of 8-aligned elements, nested arrays, variants in both byte orders
     special = [('a{sv}u', [{}, 42]), ('axs', [[], 'x']), ('ya(ii)y', [1, [], 2]), ('aai', [[[1, 2], [3]]]), ('aaii', [[[1], []], 7]),
                ('v', [W.Variant('i', 0x01020304)]), ('v', [W.Variant('a{sv}', {'k': W.Variant('s', 'v')})]), ('uv', [7, W.Variant('t', 2**63)]),
                ('a(yv)', [[[1, W.Variant('o', '/a')], [8, W.Variant('g', 'ii')]]]), ('(y(nq)x)', [[1, [-2, 3], -4]]), ('a{s(id)}', [{'a': [1, 2.5]}]),
-               ('d', [float('inf')]), ('s', ['世界']), ('ay', [[0, 255]]), ('ab', [[True, False]])]
+               ('d', [float('inf')]), ('s', ['世界']), ('ay', [[0, 255]]), ('ab', [[True, False]]),
+               # nesting to the specification's limits (32 array levels, 32 struct levels) and a 255-byte signature
+               ('a' * 32 + 'y', [_nest_list(32, [7])]), ('a' * 31 + 'x', [_nest_list(31, [])]), ('(' * 32 + 'yx' + ')' * 32, [_nest_struct(32, [1, -2])]),
+               ('a' * 16 + '(' * 16 + 'n' + ')' * 16, [_nest_list(16, [_nest_struct(16, [-3])])]), ('y' + 'x' * 254, [1] + [2**40] * 254),
+               ('d', [float('nan')]), ('ad', [[float('-inf'), 5e-324]]), ('s', ['\U0001F600' * 70])]
     for sig, vals in special:
         for off in range(8):
             for le in (True, False):
@@ -217,7 +235,7 @@ def bounded_plain_roundtrip(tier, seed):
     rnd = random.Random(seed * 7919 + 1)
     pool = signature_pool(tier)
     rnd.shuffle(pool)
-    take = pool[:5000 if tier == 'thorough' else 220]
+    take = pool[:5000 if tier == 'thorough' else 1200]
     n = 0
     special = [('a{sv}i', [{}, 42]), ('axs', [[], 'after']), ('a(ii)u', [[], 7]), ('ady', [[], 9]), ('(a{ss}s)', [[{}, 'tail']]),
                ('aax', [[[], [1]]]), ('v', [W.Variant('ax', [])]), ('yv', [3, W.Variant('(yx)', [1, 2])]), ('a{sv}', [{'a': W.Variant('d', float('-inf'))}]),
